@@ -87,6 +87,11 @@ extern "C" void h_extract_paths(void)
         vf_assert(!inner_slash, "the part of the path that comes from the catalogue contains no path separator");
       }
   vf_assert(std::vf_ofstream::opened <= 2, "at most the body file and its .inf file are created");
+#ifdef EXTRACT_IO
+  // C11: success is reported only if every output file accepted every byte, close() included
+  if (ok) vf_assert(!std::vf_ofstream::failed_any, "extract-files returns success only if no open, write or close of an output file failed");
+  if (!ok && std::vf_ofstream::failed_any) vf_witness("a failing output file makes the command fail");
+#endif
   vf_observe(std::vf_ofstream::opened); vf_observe(ok);
   if (ok && std::vf_ofstream::opened == 2) vf_witness("file and .inf extracted");
   if (!ok) vf_witness("extraction failed");
